@@ -24,11 +24,13 @@ pub struct Ctl {
     pub fail_at: AtomicI64,
     /// optimise calls take this many microseconds (widens the window of in-flight merges)
     pub slow_us: AtomicU32,
+    /// every pair metric evaluation takes this many microseconds (workers hold their shard longer)
+    pub slow_metric_us: AtomicU32,
 }
 
 impl Ctl {
     pub fn new() -> Arc<Self> {
-        Arc::new(Ctl { counter: AtomicU32::new(0), fail_at: AtomicI64::new(-1), slow_us: AtomicU32::new(0) })
+        Arc::new(Ctl { counter: AtomicU32::new(0), fail_at: AtomicI64::new(-1), slow_us: AtomicU32::new(0), slow_metric_us: AtomicU32::new(0) })
     }
     pub fn reset(&self, fail_at: i64) {
         self.counter.store(0, Ordering::SeqCst);
@@ -227,6 +229,10 @@ pub fn pair_metric(cand_calls: u32, cand_attr_val: i64, track_attr_val: i64, c: 
 
 impl ObservationMetric<HA, HO> for HM {
     fn metric(&self, mq: &MetricQuery<'_, HA, HO>) -> MetricOutput<i64> {
+        let slow = self.ctl.slow_metric_us.load(Ordering::Relaxed);
+        if slow > 0 {
+            std::thread::sleep(std::time::Duration::from_micros(slow as u64));
+        }
         pair_metric(
             self.calls,
             mq.candidate_attrs.val,
